@@ -65,7 +65,7 @@ def deco(arr):
     return arr
 
 
-def catalogue(da, a, b, t, sq, v, ds, tmpdir, cn, extra=None, lab3=None, jd=None, cg=None):
+def catalogue(da, a, b, t, sq, v, ds, tmpdir, cn, extra=None, lab3=None, jd=None, cg=None, xn=None):
     x, y, z = a.dims
     ya = a.axes[y].values
     y0 = ya[0]
@@ -148,6 +148,15 @@ def catalogue(da, a, b, t, sq, v, ds, tmpdir, cn, extra=None, lab3=None, jd=None
             'commagrouped-reshape-refused': lambda: cg.reshape(y, cx, z, transpose=False), 'commagrouped-unflatten': lambda: cg.unflatten(),
             'commagrouped-mean': lambda: cg.mean(axis=0), 'commagrouped-T': lambda: cg.T, 'commagrouped-align_dims': lambda: da.broadcast_arrays(cg, w9),
         })
+    if xn is not None:
+        # an operand that already carries an unlabelled (None) singleton dimension, met by a target that labels it
+        tn = [da.Axis([5], 'nn9')] + [ax.copy() for ax in list(xn.axes)[1:]]
+        yn = da.DimArray(np.zeros([ax.size for ax in tn]), axes=[ax.copy() for ax in tn])
+        ops.update({
+            'nonesingleton-broadcast-axes': lambda: xn.broadcast(tn), 'nonesingleton-broadcast-array': lambda: xn.broadcast(yn),
+            'nonesingleton-broadcast_arrays': lambda: da.broadcast_arrays(yn, xn), 'nonesingleton-add': lambda: xn + yn,
+            'nonesingleton-align': lambda: da.align([xn, yn]), 'nonesingleton-squeeze': lambda: xn.squeeze('nn9'),
+        })
     # rarely used call forms
     ops.update({
         'ds-reduce_axis-direct': lambda: ds.reduce_axis(np.sum, axis=z), 'ds-reduce_axis-keepdims': lambda: ds.reduce_axis(np.cumsum, axis=y, keepdims=True),
@@ -201,8 +210,9 @@ def check(case, ctx):
         lab3 = np.array(a.axes[y].values[::-1], copy=True)
         jd = a.to_jsondict()
         cg = cn.flatten((cn.dims[1], cn.dims[2]))
-        ops = catalogue(da, a, b, t, sq, v, ds, tmpdir, cn, extra=(negp, mask3, rhs3), lab3=lab3, jd=jd, cg=cg)
-        watched = (a, b, t, sq, v, ds, cn, negp, mask3, rhs3, lab3, jd, cg)
+        xn = deco(a.newaxis('nn9', pos=0))
+        ops = catalogue(da, a, b, t, sq, v, ds, tmpdir, cn, extra=(negp, mask3, rhs3), lab3=lab3, jd=jd, cg=cg, xn=xn)
+        watched = (a, b, t, sq, v, ds, cn, negp, mask3, rhs3, lab3, jd, cg, xn)
         names = list(ops)
         classes = []
         for name in names:
